@@ -64,6 +64,14 @@ CLAIMED["C11"] = dict(engine="e3+yast+yir",
          "class pointers on the path are derived<->base or dynamic casts (never bit casts); no copy constructor of a by-value/rvalue argument is "
          "called in operator(), thunk::fn or the cast helpers and moves are bounded per hop. Run-time addresses and counts are not observed.",
     design_ref="DESIGN.md section 4, C11")
+CLAIMED["C12"] = dict(engine="yast+yir",
+    technique="AST emission-order model with affine index comparison (generator); AST shape rules (installer/codec); IR symbolic walk with compile-time offsets; IR operand check of the run-time cross-check",
+    text="Decides the property as a statement about positions: every reader and writer of a method's slots-and-strides array uses 'slot_k in cell k, "
+         "stride_k in cell arity+k-1' - the static-offset generator (each emitted element's index compared as a polynomial in the loop variable and "
+         "arity), install_gv, decode/encode, and resolve with compile-time offsets for arity 1-4 incl. non-virtual parameters in between; under "
+         "runtime checks each compile-time slot/stride is compared with the installed cell of the same position and a mismatch (only) reaches the "
+         "handler. The numbers update computes are run-time values and are not decided.",
+    design_ref="DESIGN.md section 4, C12")
 NA = {
 }
 DEFAULT_NA = "check not built yet (see DESIGN.md section 4 for the planned clause)"
